@@ -1659,6 +1659,10 @@ class SymEx:
                 continue
             head = d.func if isinstance(d, ast.Call) else d
             from .model import Func
+            if isinstance(head, ast.Name):
+                gv = self.M.global_value(callee.mod, head.id)
+                if gv is not None and any(k_ in ast.unparse(gv[1]) for k_ in ('lru_cache', 'functools.cache')):
+                    continue            # NAME = functools.lru_cache(...): memoisation, transparent for the value computed
             t = self.M.resolve_name(callee.mod, head.id) if isinstance(head, ast.Name) else None
             if not isinstance(t, Func):
                 return None
@@ -2015,6 +2019,20 @@ class SymEx:
         fv = r[0][1] if len(r) == 1 else ('havoc', 'callee', site)
         return self.call_opaque(e, fv, args, kwargs, st, how)
 
+    def call_method_by_name(self, e, recv, mname, margs, mkw, st):
+        """recv.<mname>(*margs) for a receiver known only as a term: class-hierarchy resolution by method name (None if no such method in the package)"""
+        from .model import CONTAINER_METHODS
+        tg = [t_ for t_ in (self.M.cha(mname) if mname not in CONTAINER_METHODS else []) if not t_.is_property]
+        if not tg:
+            return None
+        fn = self.fn
+        if len(tg) == 1 and not self.suppress and self.policy(fn, tg[0], len(self.frames)):
+            return self.inline(tg[0], self.bind(tg[0], margs, mkw), recv, st, e)
+        bound = self.bind(tg[0], margs, mkw)
+        res = ('call', ('fn', '|'.join(sorted(t_.qn for t_ in tg))), (recv,) + tuple(margs), tuple(sorted(mkw, key=lambda kv: str(kv[0]))))
+        x = st.ev(Ev('call', callee=[t_.qn for t_ in tg], args=bound, site=self.site(e), fn=fn.qn, how='cha', layer=3, result=res, node=e, recv=recv))
+        return [(x, res)]
+
     def call_localfn(self, e, fv, args, kwargs, st):
         host = self.M.funcs.get(fv[2]) or self._find_nested_host(fv[2])
         g = host.nested.get(fv[1]) if host is not None else None
@@ -2053,6 +2071,11 @@ class SymEx:
                 return r_
         if fv[0] == 'call' and fv[1] == ('ext', 'functools.wraps') and len(args) == 1 and not kwargs:
             return [(st, args[0])]          # functools.wraps(f)(w) is w
+        if fv[0] == 'attr' and fv[1][0] != 'mod':
+            # a bound method obtained as a value (attrgetter('get_bid')(ds), getattr(ds, name)): call it on its receiver
+            r_ = self.call_method_by_name(e, fv[1], fv[2], list(args), list(kwargs), st)
+            if r_ is not None:
+                return r_
         if fv[0] == 'nt':
             tname, fields = fv[1], tuple(fv[2].split(','))
             vals = dict(zip(fields, args))
@@ -2104,6 +2127,11 @@ class SymEx:
                 clo = self.closures.get(id(fv))
                 if clo is not None and clo[0] is fv and clo[3] is self.fn:
                     src_ = clo[1]
+            if kind == 'methodcaller' and src_ is None and fv[2][0][0] == 'str':
+                # the method caller was built elsewhere (passed in as an argument): apply it by name to the receiver, class-hierarchy resolution
+                r_ = self.call_method_by_name(e, args[0], fv[2][0][1], list(fv[2][1:]), list(fv[3]), st)
+                if r_ is not None:
+                    return r_
             if kind == 'methodcaller' and src_ is not None and len(src_.args) >= 1:
                 node = ast.Call(func=ast.Attribute(value=x_ast, attr=fv[2][0][1], ctx=ast.Load()), args=list(src_.args[1:]), keywords=list(src_.keywords))
                 for n in ast.walk(node):
@@ -2442,6 +2470,9 @@ def _callable_value(fv, sx):
         return True
     if fv[0] == 'localfn':
         return True
+    if fv[0] == 'attr' and fv[1][0] != 'mod':
+        from .model import CONTAINER_METHODS
+        return fv[2] not in CONTAINER_METHODS and any(not t_.is_property for t_ in sx.M.cha(fv[2]))
     return fv[0] in ('nt', 'lambda') or (fv[0] == 'fn' and fv[1] in sx.M.funcs)
 
 
